@@ -89,4 +89,179 @@ def fmtAsBlock (b : Blk) : Bytes :=
 
 def fmtAs (bs : List Blk) : Bytes := joinComma (bs.map fmtAsBlock)
 
+/-! ### reading the AS text form back (`AsBlocks::from_str`, `AsBlock::from_str`, `Asn::from_str`) -/
+
+/-- `char::is_whitespace` on ASCII -/
+def isWs (c : Nat) : Bool := c = 32 || (9 ≤ c && c ≤ 13)
+def trim (b : Bytes) : Bytes := ((b.dropWhile isWs).reverse.dropWhile isWs).reverse
+
+/-- split at every comma -/
+def splitComma : Bytes → Bytes → List Bytes
+  | [], cur => [cur.reverse]
+  | c :: rest, cur => if c = 44 then cur.reverse :: splitComma rest [] else splitComma rest (c :: cur)
+
+/-- `u32::from_str`: an optional `+`, then at least one digit, no overflow -/
+def parseU32 (b : Bytes) : Option Nat :=
+  let d := match b with | 43 :: r => r | _ => b
+  if d = [] then none
+  else if d.all (fun c => 48 ≤ c && c ≤ 57) then
+    let v := d.foldl (fun acc c => acc * 10 + (c - 48)) 0
+    if v < 2 ^ 32 then some v else none
+  else none
+
+/-- `strip_as`: the first two characters when they are `as` in any case (only cut at a character boundary) -/
+def stripAs (b : Bytes) : Bytes :=
+  match b with
+  | a :: c :: rest => if (a = 65 || a = 97) && (c = 83 || c = 115) then rest else b
+  | _ => b
+
+def parseAsn (b : Bytes) : Option Nat := parseU32 (stripAs b)
+
+/-- `AsBlock::from_str` -/
+def parseAsBlock (b : Bytes) : Option Blk :=
+  let pre := b.takeWhile (· ≠ 45)
+  if pre.length = b.length then (parseAsn b).map fun v => ⟨v, v⟩
+  else
+    let post := b.drop (pre.length + 1)
+    if post = [] then none
+    else match parseAsn pre, parseAsn post with
+      | some lo, some hi => if lo > hi then none else some ⟨lo, hi⟩
+      | _, _ => none
+
+/-- `AsBlocks::from_str`: the blocks in the order written (the builder then collects them) -/
+def parseAsItems (b : Bytes) : Option (List Blk) :=
+  ((splitComma b []).map trim |>.filter (· ≠ [])).mapM parseAsBlock
+
+def parseAs (b : Bytes) : Option (List Blk) := (parseAsItems b).map (fromIter 4294967295)
+
+/-! ### reading the IP text forms back
+
+`Ipv4Blocks::from_str`, `Ipv6Blocks::from_str`, `IpBlock::from_v4_str/from_v6_str`, `Prefix` and
+`AddressRange` `from_v?_str_sep` are repository code; the address parsers underneath are the
+standard library's (`Ipv4Addr::from_str`, `Ipv6Addr::from_str`), modelled here from their
+documented grammar: IPv4 is four decimal numbers 0…255 of at most three digits without a leading
+zero; IPv6 is up to eight groups of one to four hexadecimal digits, `::` at most once for one or
+more zero groups, and an IPv4 address allowed as the last 32 bits. -/
+
+def isDigit (c : Nat) : Bool := 48 ≤ c && c ≤ 57
+def hexVal (c : Nat) : Option Nat :=
+  if 48 ≤ c ∧ c ≤ 57 then some (c - 48)
+  else if 97 ≤ c ∧ c ≤ 102 then some (c - 87)
+  else if 65 ≤ c ∧ c ≤ 70 then some (c - 55)
+  else none
+
+/-- split at every occurrence of `sep` -/
+def splitOn (sep : Nat) : Bytes → Bytes → List Bytes
+  | [], cur => [cur.reverse]
+  | c :: rest, cur => if c = sep then cur.reverse :: splitOn sep rest [] else splitOn sep rest (c :: cur)
+
+/-- one IPv4 octet: 1–3 digits, no leading zero unless it is `0`, at most 255 -/
+def parseOctet (b : Bytes) : Option Nat :=
+  if b = [] ∨ b.length > 3 ∨ !b.all isDigit then none
+  else if b.length > 1 ∧ b.head? = some 48 then none
+  else
+    let v := b.foldl (fun acc c => acc * 10 + (c - 48)) 0
+    if v ≤ 255 then some v else none
+
+/-- `Ipv4Addr::from_str`: the 32-bit value -/
+def parseV4 (b : Bytes) : Option Nat :=
+  match (splitOn 46 b []).mapM parseOctet with
+  | some [a, b', c, d] => some (a * 2 ^ 24 + b' * 2 ^ 16 + c * 2 ^ 8 + d)
+  | _ => none
+
+/-- one IPv6 group: 1–4 hexadecimal digits -/
+def parseGroup (b : Bytes) : Option Nat :=
+  if b = [] ∨ b.length > 4 then none
+  else (b.mapM hexVal).map fun ds => ds.foldl (fun acc d => acc * 16 + d) 0
+
+/-- a `:`-separated run of groups whose last element may be an IPv4 address (then two groups);
+`[]` for the empty string -/
+def parseGroups (b : Bytes) (allowV4 : Bool) : Option (List Nat) :=
+  if b = [] then some [] else
+  let parts := splitOn 58 b []
+  let init := parts.dropLast
+  match parts.getLast? with
+  | none => some []
+  | some last =>
+    match init.mapM parseGroup with
+    | none => none
+    | some gs =>
+      if last.contains 46 then
+        (if allowV4 then (parseV4 last).map fun v => gs ++ [v / 65536, v % 65536] else none)
+      else (parseGroup last).map fun g => gs ++ [g]
+
+def groupsToNat (gs : List Nat) : Nat := gs.foldl (fun acc g => acc * 65536 + g) 0
+
+/-- position of the first `::` -/
+def findDouble : Bytes → Nat → Option Nat
+  | 58 :: 58 :: _, i => some i
+  | _ :: rest, i => findDouble rest (i + 1)
+  | [], _ => none
+
+/-- `Ipv6Addr::from_str`: the 128-bit value -/
+def parseV6 (b : Bytes) : Option Nat :=
+  match findDouble b 0 with
+  | none =>
+    (match parseGroups b true with
+     | some gs => if gs.length = 8 then some (groupsToNat gs) else none
+     | none => none)
+  | some i =>
+    let head := b.take i
+    let tail := b.drop (i + 2)
+    -- an IPv4 part can only end the address: never in the head
+    match parseGroups head false, parseGroups tail true with
+    | some hs, some ts =>
+      if hs.length + ts.length ≤ 7 then
+        some (groupsToNat (hs ++ List.replicate (8 - hs.length - ts.length) 0 ++ ts))
+      else none
+    | _, _ => none
+
+/-- `u8::from_str` for a prefix length -/
+def parseLen (b : Bytes) : Option Nat :=
+  let d := match b with | 43 :: r => r | _ => b
+  if d = [] ∨ !d.all isDigit then none
+  else
+    let v := d.foldl (fun acc c => acc * 10 + (c - 48)) 0
+    if v ≤ 255 then some v else none
+
+def findSep (sep : Nat) (b : Bytes) : Option Nat :=
+  let pre := b.takeWhile (· ≠ sep)
+  if pre.length = b.length then none else some pre.length
+
+/-- the 128-bit address of a parsed address of the family -/
+def parseAddr (v4 : Bool) (b : Bytes) : Option Nat :=
+  if v4 then (parseV4 b).map (· * 2 ^ 96) else parseV6 b
+
+def hostMask (len : Nat) : Nat := 2 ^ (128 - len) - 1
+
+/-- `IpBlock::from_v4_str` / `from_v6_str`: the block as stored (prefix: host bits cleared by
+`Prefix::new`; a single IPv4 address is the range up to the end of its low 96 bits) -/
+def parseIpBlock (v4 : Bool) (b : Bytes) : Option TBlk :=
+  let W := if v4 then 32 else 128
+  match findSep 47 b with
+  | some i =>
+    (match parseAddr v4 (b.take i), parseLen (b.drop (i + 1)) with
+     | some a, some len => if len > W then none else some (.pfx (a / 2 ^ (128 - len) * 2 ^ (128 - len)) len)
+     | _, _ => none)
+  | none =>
+    match findSep 45 b with
+    | some i =>
+      (match parseAddr v4 (b.take i), parseAddr v4 (b.drop (i + 1)) with
+       | some lo, some hi => some (.range lo (if v4 then hi + (2 ^ 96 - 1) else hi))
+       | _, _ => none)
+    | none => (parseAddr v4 b).map fun a => .range a (if v4 then a + (2 ^ 96 - 1) else a)
+
+def tblkBounds : TBlk → Blk
+  | .pfx a len => ⟨a, a + hostMask len⟩
+  | .range lo hi => ⟨lo, hi⟩
+
+/-- `Ipv4Blocks::from_str` / `Ipv6Blocks::from_str`: the items in the order written; `none` when an
+item does not parse or smells like the other family -/
+def parseIpItems (v4 : Bool) (b : Bytes) : Option (List TBlk) :=
+  let items := (splitComma b []).map trim |>.filter (· ≠ [])
+  if v4 then
+    (if items.any (·.contains 58) then none else items.mapM (parseIpBlock true))
+  else
+    (if items.any (fun s => s.contains 46 && !s.contains 58) then none else items.mapM (parseIpBlock false))
+
 end Rpki.ResText
